@@ -381,6 +381,11 @@ def run(chk, replay=None):
         rp = json.load(open(replay))["replay"]
         if isinstance(rp, dict) and rp.get("suite") == "restart":
             rcases.append(rp["case"])
+    # corpus: the aligned interrupted-compaction plant (a leftover snapshot_2 whose extra records start exactly where
+    # the next real snapshot ends) — with the writer before the repair the ghost user/config are served after the restart
+    for line in open(os.path.join(os.path.dirname(os.path.abspath(__file__)), "c01_corpus.jsonl")):
+        if line.strip():
+            rcases.append(json.loads(line))
     for i in range(n_hist):
         rcases.append(gen_restart_case(rng, g, samples, tier, plant=(i % 2 == 1)))
     r_out = lib.harness_run_parallel("restart", rcases, shards=8, env=env, timeout=2400)
